@@ -1220,9 +1220,9 @@ OCTET_STRING_per_get_characters(asn_per_data_t *po, uint8_t *buf,
 	ASN_DEBUG("Expanding %d characters into (%ld..%ld):%d",
 		(int)units, lb, ub, unit_bits);
 
-	/* X.691: 27.5.4 */
+	/* X.691: 27.5.4: the largest value fits in unit_bits, ub <= 2^b - 1 */
 	if(unit_bits > 0
-	   && (unsigned long)ub <= ((unsigned long)2 << (unit_bits - 1))) {
+	   && (unsigned long)ub < ((unsigned long)2 << (unit_bits - 1))) {
 		/* Decode without translation */
 		lb = 0;
 	} else if(pc && pc->code2value) {
@@ -1285,9 +1285,9 @@ OCTET_STRING_per_put_characters(asn_per_outp_t *po, const uint8_t *buf,
 	ASN_DEBUG("Squeezing %d characters into (%ld..%ld):%d (%d bpc)",
 		(int)units, lb, ub, unit_bits, bpc);
 
-	/* X.691: 27.5.4 */
+	/* X.691: 27.5.4: the largest value fits in unit_bits, ub <= 2^b - 1 */
 	if(unit_bits > 0
-	   && (unsigned long)ub <= ((unsigned long)2 << (unit_bits - 1))) {
+	   && (unsigned long)ub < ((unsigned long)2 << (unit_bits - 1))) {
 		/* Encode as is */
 		lb = 0;
 	} else if(pc && pc->value2code) {
